@@ -180,3 +180,74 @@ def propagation_forms(cx, N, L, Nt):
         prop.dt = dt
         outs.append(prop.propagate(rhoi, method=METHOD[L]).data)
     cx.prove_eq("same_dynamics", outs[0], outs[1])
+
+
+@harness("C07", "td_converted_transform",
+         quick=[dict(N=2, nb=1)], thorough=[dict(N=2, nb=1), dict(N=2, nb=2)],
+         functions=[F_TDR + ":TDRedfieldRelaxationTensor._implementation",
+                    F_TDR + ":TDRedfieldRelaxationTensor._convert_operators_2_tensor",
+                    F_TDR + ":TDRedfieldRelaxationTensor.transform",
+                    F_RED + ":RedfieldRelaxationTensor.convert_2_tensor"],
+         bound="N=2, <=2 baths, 4 bath time points: a time-dependent Redfield tensor born in operator form and "
+               "converted with convert_2_tensor() equals the tensor-born one, before and after transform(S) with an "
+               "arbitrary orthogonal S",
+         out="N>=3")
+def td_converted_transform(cx, N, nb):
+    from quantarhei.qm import TDRedfieldRelaxationTensor
+    ham, sbi, time = build_sbi(cx, N, nb, Nt=4)
+    set_symmetric_hamiltonian(cx, ham)
+    set_symmetric_K(cx, sbi, N)
+    if cx.sym:
+        from symnum import linalg
+        linalg.use_eigh(eigen_equation=False)
+    A = TDRedfieldRelaxationTensor(ham, sbi, as_operators=True)
+    B = TDRedfieldRelaxationTensor(ham, sbi, as_operators=False)
+    A.convert_2_tensor()
+    cx.prove_eq("converted_equals_tensor_born", A._data, B._data, tol=1e-7)
+    S = rotation(cx, N)
+    A.transform(S)
+    B.transform(S)
+    cx.prove_eq("same_after_transform", A._data, B._data, tol=1e-7)
+
+
+@harness("C07", "td_sampling",
+         quick=[dict(step=2, Nref=1), dict(step=1, Nref=1)],
+         thorough=[dict(step=2, Nref=1), dict(step=1, Nref=1), dict(step=2, Nref=2), dict(step=3, Nref=1)],
+         functions=[F_P + ":ReducedDensityMatrixPropagator.__propagate_short_exp_with_TD_relaxation"],
+         bound="N=2, order 2, 3 stored times; bath time axis of step 1 (8 points), propagation step `step` in {1,2} "
+               "(thorough 3) with refinement Nref: sub-step number q of the run uses the tensor sampled at bath index "
+               "1 + q*(step/Nref), i.e. at the physical time of that sub-step; arbitrary time-dependent tensor with "
+               "the C01 identities at each index",
+         out="cut-off time; field-driven variants")
+def td_sampling(cx, step, Nref):
+    import quantarhei as qr
+    from quantarhei.qm import ReducedDensityMatrixPropagator, TDRedfieldRelaxationTensor
+    from harness.C02 import initial_state, taylor, tensor_gen
+    from harness.common import tensor_with_identities
+    N, Nt, Ntb = 2, 3, 8
+    ham, sbi, tb = build_sbi(cx, N, 1, Nt=Ntb)
+    H = cx.real_symmetric("H", N)
+    ham._data = H
+    RT = TDRedfieldRelaxationTensor(ham, sbi, initialize=False)
+    data = numpy.empty((Ntb, N, N, N, N), dtype=object if cx.sym else complex)
+    for t in range(Ntb):
+        data[t] = tensor_with_identities(cx, N, "R%d_" % t)
+    RT._data = data
+    RT.Nt = Ntb
+    RT._data_initialized = True
+    RT.is_time_dependent = True
+    with cx.concrete():
+        time = qr.TimeAxis(0.0, Nt, float(step))
+    rhoi, rho0 = initial_state(cx, N)
+    prop = ReducedDensityMatrixPropagator(time, ham, RTensor=RT)
+    pr = prop.propagate(rhoi, method="short-exp-2", Nref=Nref)
+    stride = step // Nref
+    dt = 1.0 * stride
+    ref = rho0
+    q = 0
+    for i in range(1, Nt):
+        for j in range(Nref):
+            idx = 1 + q * stride
+            ref = taylor(tensor_gen(H, data[min(idx, Ntb - 1)]), ref, dt, 2)
+            q += 1
+        cx.prove_eq("sampled[%d]" % i, pr.data[i], ref, tol=1e-7)
